@@ -367,12 +367,33 @@ func (e *Exec) havocKey(st *State, key, sort string) {
 
 // havocAll forgets the whole heap (call to an unspecified callee).
 func (e *Exec) havocAll(st *State, why string) {
+	// monotone shared state: whatever happened, closed channels stay closed etc.
+	mono := map[string]string{}
+	for _, k := range monotoneKeys {
+		_, inHeap := st.heap[k]
+		_, declared := e.decls[e.entryArrName(k)]
+		if inHeap || declared {
+			mono[k] = e.curArr(st, k, arr(SInt, SBool))
+		}
+	}
 	for _, k := range sortedKeys(st.heap) {
 		if strings.HasPrefix(k, "L:") || e.immutableKey(k) { // immutable fields cannot change
 			continue
 		}
 		delete(st.heap, k)
 	}
+	defer func() {
+		for _, k := range monotoneKeys {
+			old, ok := mono[k]
+			if !ok {
+				continue
+			}
+			nw := e.fresh("T:"+k, arr(SInt, SBool))
+			x := e.freshName("x")
+			st.assume(fmt.Sprintf("(forall ((%s Int)) (! (=> (select %s %s) (select %s %s)) :pattern ((select %s %s))))", x, old, x, nw, x, nw, x))
+			st.heap[k] = nw
+		}
+	}()
 	// keys never touched so far would read the entry array; bump a generation so
 	// that later first reads see a fresh array instead.
 	e.ctr++
